@@ -434,6 +434,9 @@ class Enum:
                         self.fail("a mutating call did not raise", role, "is_immutable", ("-> False",))
                     self.setattrs(role, gn, ["rdatasets", "id", "flags", "zzz"])
                     self.sweep(role, gn, twin_node, dump_node, pool_node(gn()))
+                    some = gn().rdatasets[0]
+                    self.sweep(role + " .rdatasets", lambda: gn().rdatasets, list, tuple,
+                               [(), (some,), (0,), (0, some), ([some],), (slice(0, 1),)])
                     for ri in range(len(gn().rdatasets)):
                         gr = (lambda ri: lambda: gn().rdatasets[ri])(ri)
                         if id(gr()) in seen_rds and not self.only:
@@ -470,7 +473,8 @@ class Enum:
                        pool_rdataset(z.get_rdataset(nm, ty)))
             self.sweep(f"zone.find_node({nm})", lambda: z.find_node(nm), twin_node, dump_node, pool_node(z.find_node(nm)))
         for name, args in [
-            ("find_node", ("a", True)), ("find_node", ("zzz", True)), ("delete_node", ("a",)),
+            ("find_node", ("a", True)), ("find_node", ("zzz", True)), ("get_node", ("zzz", True)),
+            ("delete_node", ("a",)),
             ("find_rdataset", ("a", "MX", NONE, True)), ("get_rdataset", ("a", "MX", NONE, True)),
             ("delete_rdataset", ("a", "A")), ("replace_rdataset", ("a", rds("A", 300, "10.9.9.9"))),
             ("__setitem__", (N("a"), dns.zone.VersionedNode())), ("__delitem__", (N("a"),)),
